@@ -2,7 +2,10 @@
 
 //! Names for type variables
 
+#[cfg(not(feature = "verif-shuttle"))]
 use std::sync::atomic::{AtomicUsize, Ordering};
+#[cfg(feature = "verif-shuttle")]
+use shuttle::sync::atomic::{AtomicUsize, Ordering};
 
 /// Global counter used to give type variables unique names.
 static NEXT_ID: AtomicUsize = AtomicUsize::new(1);
